@@ -13,6 +13,7 @@ import (
 	"errors"
 	"fmt"
 	"io"
+	"strconv"
 	"strings"
 	"sync"
 	"time"
@@ -305,6 +306,8 @@ func (r *Run) step(s *Step) {
 		r.disconnect(s)
 	case "abort":
 		r.abort(s)
+	case "stats":
+		r.stats()
 	case "pingall":
 		r.amu.Lock()
 		var as []*actor
@@ -399,7 +402,7 @@ func (a *actor) logRecv(p *mw.Packet) {
 	rec := a.run.Rec
 	switch p.Type {
 	case mw.CONNACK:
-		e := inproc.Event{"e": "connack", "k": a.k, "sp": p.SessionPresent, "code": int(p.Code)}
+		e := inproc.Event{"e": "connack", "k": a.k, "sp": p.SessionPresent, "code": int(p.Code), "size": len(p.Raw)}
 		if p.Props != nil {
 			e["sessexp"] = propsU32(p.Props.SessionExpiry)
 			if p.Props.ReceiveMax != nil {
@@ -418,15 +421,15 @@ func (a *actor) logRecv(p *mw.Packet) {
 		for i, c := range p.Codes {
 			codes[i] = int(c)
 		}
-		rec.Log(inproc.Event{"e": "suback", "k": a.k, "pid": int(p.PacketID), "codes": codes})
+		rec.Log(inproc.Event{"e": "suback", "k": a.k, "pid": int(p.PacketID), "codes": codes, "size": len(p.Raw)})
 	case mw.UNSUBACK:
 		n := len(p.Codes)
-		rec.Log(inproc.Event{"e": "unsuback", "k": a.k, "pid": int(p.PacketID), "n": n, "v5": a.ver == mw.V5})
+		rec.Log(inproc.Event{"e": "unsuback", "k": a.k, "pid": int(p.PacketID), "n": n, "v5": a.ver == mw.V5, "size": len(p.Raw)})
 	case mw.PUBACK, mw.PUBREC, mw.PUBCOMP:
 		name := map[byte]string{mw.PUBACK: "puback", mw.PUBREC: "pubrec", mw.PUBCOMP: "pubcomp"}[p.Type]
-		rec.Log(inproc.Event{"e": name, "k": a.k, "pid": int(p.PacketID), "code": int(p.Code)})
+		rec.Log(inproc.Event{"e": name, "k": a.k, "pid": int(p.PacketID), "code": int(p.Code), "size": len(p.Raw)})
 	case mw.PUBREL:
-		rec.Log(inproc.Event{"e": "relout", "k": a.k, "pid": int(p.PacketID)})
+		rec.Log(inproc.Event{"e": "relout", "k": a.k, "pid": int(p.PacketID), "size": len(p.Raw)})
 		a.mu.Lock()
 		for _, e := range a.unacked {
 			if e.pid == p.PacketID {
@@ -438,9 +441,9 @@ func (a *actor) logRecv(p *mw.Packet) {
 			a.sendAck("pubcomp", p.PacketID, 0)
 		}
 	case mw.PINGRESP:
-		rec.Log(inproc.Event{"e": "pingresp", "k": a.k})
+		rec.Log(inproc.Event{"e": "pingresp", "k": a.k, "size": len(p.Raw)})
 	case mw.DISCONNECT:
-		rec.Log(inproc.Event{"e": "srvdisconnect", "k": a.k, "code": int(p.Code)})
+		rec.Log(inproc.Event{"e": "srvdisconnect", "k": a.k, "code": int(p.Code), "size": len(p.Raw)})
 	case mw.PUBLISH:
 		topic := p.Topic
 		alias := 0
@@ -509,8 +512,10 @@ func (a *actor) sendAck(t string, pid uint16, code byte) {
 		}
 	}
 	a.mu.Unlock()
-	a.run.Rec.Log(inproc.Event{"e": "cack", "k": a.k, "t": t, "pid": int(pid), "code": int(code)})
-	_ = a.c.Send(mw.Ack(typ, pid, code))
+	ap := mw.Ack(typ, pid, code)
+	ap.Version = a.ver
+	a.run.Rec.Log(inproc.Event{"e": "cack", "k": a.k, "t": t, "pid": int(pid), "code": int(code), "size": mw.Size(ap)})
+	_ = a.c.Send(ap)
 }
 
 // wait blocks until pred holds for some packet read after position `from`, EOF, or timeout.
@@ -624,6 +629,8 @@ func (r *Run) connect(s *Step) {
 		ev["will"] = map[string]interface{}{"topic": s.Will.Topic, "lv": lv(s.Will.Topic), "sys": isSys(s.Will.Topic), "qos": s.Will.Qos,
 			"retain": s.Will.Retain, "tag": s.Will.Tag, "delay": s.Will.Delay}
 	}
+	p.Version = ver
+	ev["size"] = mw.Size(p)
 	r.Rec.Log(ev)
 	go a.reader()
 	if err := c.Send(p); err != nil {
@@ -662,7 +669,8 @@ func (r *Run) subscribe(s *Step) {
 		p.Props = &mw.Props{SubscriptionIDs: []uint32{uint32(s.SubID)}}
 	}
 	m := a.mark()
-	r.Rec.Log(inproc.Event{"e": "subscribe", "k": s.K, "pid": int(pid), "subid": s.SubID, "subs": evs})
+	p.Version = a.ver
+	r.Rec.Log(inproc.Event{"e": "subscribe", "k": s.K, "pid": int(pid), "subid": s.SubID, "subs": evs, "size": mw.Size(p)})
 	if err := a.c.Send(p); err != nil {
 		r.note("subscribe send error: " + err.Error())
 		return
@@ -678,8 +686,10 @@ func (r *Run) unsubscribe(s *Step) {
 	}
 	pid := a.pid()
 	m := a.mark()
-	r.Rec.Log(inproc.Event{"e": "unsubscribe", "k": s.K, "pid": int(pid), "names": s.Names})
-	if err := a.c.Send(mw.Unsubscribe(pid, s.Names...)); err != nil {
+	up := mw.Unsubscribe(pid, s.Names...)
+	up.Version = a.ver
+	r.Rec.Log(inproc.Event{"e": "unsubscribe", "k": s.K, "pid": int(pid), "names": s.Names, "size": mw.Size(up)})
+	if err := a.c.Send(up); err != nil {
 		r.note("unsubscribe send error: " + err.Error())
 		return
 	}
@@ -751,8 +761,10 @@ func (r *Run) publish(s *Step) {
 
 func (r *Run) pubrel(a *actor, pid uint16) {
 	m := a.mark()
-	r.Rec.Log(inproc.Event{"e": "pubrel", "k": a.k, "pid": int(pid)})
-	if err := a.c.Send(mw.Ack(mw.PUBREL, pid, 0)); err != nil {
+	rp := mw.Ack(mw.PUBREL, pid, 0)
+	rp.Version = a.ver
+	r.Rec.Log(inproc.Event{"e": "pubrel", "k": a.k, "pid": int(pid), "size": mw.Size(rp)})
+	if err := a.c.Send(rp); err != nil {
 		return
 	}
 	a.wait(m, r.TO.Ack, func(p *mw.Packet) bool { return p.Type == mw.PUBCOMP && p.PacketID == pid })
@@ -824,7 +836,7 @@ func (r *Run) ping(s *Step) {
 		a.logmu.Unlock()
 		return
 	}
-	r.Rec.Log(inproc.Event{"e": "pingreq", "k": s.K})
+	r.Rec.Log(inproc.Event{"e": "pingreq", "k": s.K, "size": 2})
 	a.logmu.Unlock()
 	if err := a.c.Send(mw.Pingreq()); err != nil {
 		return
@@ -851,7 +863,8 @@ func (r *Run) disconnect(s *Step) {
 		return
 	}
 	a.muted = true
-	r.Rec.Log(inproc.Event{"e": "disconnect", "k": s.K, "code": s.Code, "expiry": exp})
+	p.Version = a.ver
+	r.Rec.Log(inproc.Event{"e": "disconnect", "k": s.K, "code": s.Code, "expiry": exp, "size": mw.Size(p)})
 	a.logmu.Unlock()
 	_ = a.c.Send(p)
 	// [MQTT-3.14.4-1] after sending DISCONNECT the client closes the network connection
@@ -968,4 +981,53 @@ func WriteTrace(w io.Writer, evs []inproc.Event) (int, error) {
 		n++
 	}
 	return n, nil
+}
+
+
+// stats logs a snapshot of the broker's statistics: the global ones and those of every client id that any actor
+// of this run has used (absent = the broker has no per-client record).
+func (r *Run) stats() {
+	sm := r.B.Srv.StatsManager()
+	g := sm.GetGlobalStats()
+	cl := map[string]interface{}{}
+	r.amu.Lock()
+	ids := map[string]bool{}
+	for _, a := range r.actors {
+		ids[a.cid] = true
+	}
+	r.amu.Unlock()
+	for id := range ids {
+		if cs, ok := sm.GetClientStats(id); ok {
+			cl[id] = cs
+		}
+	}
+	// uint64 gauges that wrapped below zero would not survive JSON numbers: log them as signed values
+	b, _ := json.Marshal(map[string]interface{}{"global": g, "clients": cl})
+	var generic map[string]interface{}
+	dec := json.NewDecoder(strings.NewReader(string(b)))
+	dec.UseNumber()
+	_ = dec.Decode(&generic)
+	r.Rec.Log(inproc.Event{"e": "stats", "snap": signed(generic)})
+}
+
+// signed turns json.Number values above 2^62 (wrapped unsigned counters) into negative int64 so that they stay exact.
+func signed(v interface{}) interface{} {
+	switch x := v.(type) {
+	case map[string]interface{}:
+		for k, e := range x {
+			x[k] = signed(e)
+		}
+		return x
+	case []interface{}:
+		for i, e := range x {
+			x[i] = signed(e)
+		}
+		return x
+	case json.Number:
+		if u, err := strconv.ParseUint(string(x), 10, 64); err == nil {
+			return int64(u)
+		}
+		return x
+	}
+	return v
 }
